@@ -198,6 +198,17 @@ def ctm_path_vs_file(tok0: str, use_map: bool) -> bool:
     return store["/p.ctm"].getvalue() == f.getvalue() and back == P.read_ctm(MemFile(f.getvalue()), {("wav", "B"): u0} if use_map else None)
 
 
+def _textgrid_bytes(tr, target, tier, point_tier, precision):
+    f = MemFile()
+    if target is None:
+        P.write_textgrid(tr, f, None, None, tier, point_tier, precision)
+        return f.getvalue()
+    store = {}
+    with _with_open(store):
+        P.write_textgrid(tr, target, None, None, tier, point_tier, precision)
+    return store[target].getvalue()
+
+
 def textgrid_path_vs_file(tok0: str, tier: str, precision: int, pt: int) -> bool:
     """
     pre: _tok_ok(tok0, "ab", 1)
@@ -206,14 +217,21 @@ def textgrid_path_vs_file(tok0: str, tier: str, precision: int, pt: int) -> bool
     pre: 0 <= pt <= 2
     post: _ is True
     """
+    # Writing through a path must give the bytes of writing to an open file.  The listed finding (known_findings.json,
+    # C11 textgrid-path-options: point_tier and precision are not forwarded for a path) is the ONLY accepted deviation:
+    # then the path output must equal the open-file output under the default point_tier/precision.
     point_tier = [None, True, False][pt]
     ok = True
     for (a, b) in ((0.12345678, 0.12345678), (0.0, 0.50001)):
         tr = [(tok0, a, b)]
-        f = MemFile()
-        P.write_textgrid(tr, f, None, None, tier, point_tier, precision)
-        store = {}
-        with _with_open(store):
-            P.write_textgrid(tr, "/p.TextGrid", None, None, tier, point_tier, precision)
-        ok = ok and store["/p.TextGrid"].getvalue() == f.getvalue()
+        by_path = _textgrid_bytes(tr, "/p.TextGrid", tier, point_tier, precision)
+        by_file = _textgrid_bytes(tr, None, tier, point_tier, precision)
+        listed = _textgrid_bytes(tr, None, tier, None, P.config.DEFT_FLOAT_PRINT_PRECISION)
+        ok = ok and (by_path == by_file or by_path == listed)
     return ok
+
+
+def textgrid_finding_present() -> bool:
+    """concrete probe of the listed input: precision=0, point_tier=False through a path"""
+    tr = [("a", 0.12345678, 0.12345678)]
+    return _textgrid_bytes(tr, "/p.TextGrid", "T", False, 0) != _textgrid_bytes(tr, None, "T", False, 0)
